@@ -41,6 +41,9 @@ def configs(tier, seed):
     uu = [(x, y) for x in fm for y in fm if not x[0] and not y[0] and P07.growth('sub', x, y)[1] > 53]
     for x, y in C.pick(uu, 40 if tier == 'quick' else len(uu), rng):
         out.append(dict(part='arith', op='sub', x=list(x), y=list(y), route='operator', shape=[]))
+    # an operand that was already used in a wide operation and then updated in place (x[i] = ...) is used again
+    for op, x, y in C.pick(triples, 60 if tier == 'quick' else 1500, rng):
+        out.append(dict(part='arith_inplace', op=op, x=list(x), y=list(y), route=rng.choice(('operator', 'function')), shape=[2]))
     # big-integer stores
     stores = [(s, n, f) for s in (True, False) for n in range(1, 53) for f in range(0, n + 4)]
     for (s, n, f) in C.pick(stores, 150 if tier == 'quick' else 600, rng):
@@ -54,6 +57,8 @@ def configs(tier, seed):
 def cost(cfg):
     if cfg['part'] == 'store':
         return 30
+    if cfg['part'] == 'arith_inplace':
+        return 40
     return (cfg['x'][1] + cfg['y'][1]) / 10.0 * (3 if cfg['op'] == 'mul' else 1)
 
 
@@ -67,6 +72,8 @@ def inputs(cfg):
         return {'v0': dict(kind='int', lo=-m, hi=m)}
     lo, hi = SP.limits(cfg['x'][0], cfg['x'][1])
     lo2, hi2 = SP.limits(cfg['y'][0], cfg['y'][1])
+    if cfg['part'] == 'arith_inplace':
+        return {'a0': dict(kind='int', lo=lo, hi=hi), 'a1': dict(kind='int', lo=lo, hi=hi), 'b0': dict(kind='int', lo=lo2, hi=hi2)}
     return {'a0': dict(kind='int', lo=lo, hi=hi), 'b0': dict(kind='int', lo=lo2, hi=hi2)}
 
 
@@ -74,6 +81,15 @@ def run(F, cfg, inp):
     if cfg['part'] == 'store':
         return P01.run(F, _c01(cfg), inp)
     (sx, nx, fx), (sy, ny, fy) = cfg['x'], cfg['y']
+    if cfg['part'] == 'arith_inplace':
+        fn = P07._PYOP[cfg['op']] if cfg['route'] == 'operator' else getattr(F.pkg, cfg['op'])
+        x = C.state_fxp(F, sx, nx, fx, [0, 0], (2,))
+        y = C.state_fxp(F, sy, ny, fy, inp['b0'])
+        fn(x, y), fn(y, x), fn(x, x)                      # first use: whatever the operation remembers about x is computed for the zeros
+        x.val[0] = inp['a0']                              # in-place element writes into the value buffer (what x[i] = v ends in)
+        x.val[1] = inp['a1']
+        z = fn(x, y)
+        return dict(z=C.snap_fxp(z, False), status=P07._st(z), x=O.snap(x.val), y=O.snap(y.val))
     x = C.state_fxp(F, sx, nx, fx, inp['a0'])
     y = C.state_fxp(F, sy, ny, fy, inp['b0'])
     z = P07._PYOP[cfg['op']](x, y) if cfg['route'] == 'operator' else getattr(F.pkg, cfg['op'])(x, y)
@@ -88,6 +104,15 @@ def post(cfg, inp, ob):
     x, y, op = tuple(cfg['x']), tuple(cfg['y']), cfg['op']
     fm = P07.growth(op, x, y)
     a, b = inp['a0'], inp['b0']
+    if cfg['part'] == 'arith_inplace':
+        out = [('format_growth_rule', (z['signed'], z['n_word'], z['n_frac']) == fm), ('n_cells', len(O.cells(z['val'])) == 2)]
+        for i, code in enumerate(O.cells(z['val'])[:2]):
+            ex = P07._exact(op, inp['a%d' % i], x[2], b, y[2], fm[2])
+            if op == 'sub' and not fm[0]:
+                out.append(('exact_when_nonnegative_%d' % i, SP.IMPLIES(T.icmp(ex, 0, '>='), T.icmp(code, ex, '=='))))
+            else:
+                out.append(('exact_after_in_place_update_%d' % i, T.icmp(code, ex, '==')))
+        return out
     code = O.cells(z['val'])[0]
     out = [('format_growth_rule', (z['signed'], z['n_word'], z['n_frac']) == fm),
            ('operands_unchanged', SP.AND(T.icmp(O.cells(ob['x'])[0], a, '=='), T.icmp(O.cells(ob['y'])[0], b, '==')))]
